@@ -397,6 +397,11 @@ func checkC19(c *Ctx) {
 					if !strings.Contains(it.Label, "context.WithTimeout(") {
 						return "server.Shutdown is not bounded by a context with the shutdown timeout"
 					}
+					if ci, ok := it.Instr.(ssa.CallInstruction); ok {
+						if why := c.shutdownParentLive(ci.Common().Args[1], 0); why != "" {
+							return "the shutdown deadline is derived from " + why + ": by the time shutdown starts that context is already cancelled, server.Shutdown returns at once and the fallback closes the connections of requests still in flight"
+						}
+					}
 				}
 			}
 			if si < 0 || li < 0 || li < si {
@@ -1187,4 +1192,65 @@ func namedOrSelf(t types.Type) types.Type {
 		}
 		t = p.Elem()
 	}
+}
+
+// shutdownParentLive: the context handed to server.Shutdown must not descend from a context that is
+// cancelled when shutdown begins (the signal context, the balancer's context).  It reports the
+// offending ancestor, "" when every ancestor chain ends in context.Background/TODO/WithoutCancel.
+func (c *Ctx) shutdownParentLive(v ssa.Value, depth int) string {
+	p := c.P
+	if depth > 8 {
+		return ""
+	}
+	switch x := v.(type) {
+	case *ssa.Extract:
+		return c.shutdownParentLive(x.Tuple, depth+1)
+	case *ssa.ChangeInterface:
+		return c.shutdownParentLive(x.X, depth+1)
+	case *ssa.MakeInterface:
+		return c.shutdownParentLive(x.X, depth+1)
+	case *ssa.Phi:
+		for _, e := range x.Edges {
+			if w := c.shutdownParentLive(e, depth+1); w != "" {
+				return w
+			}
+		}
+		return ""
+	case *ssa.Call:
+		switch n := CalleeName(x); n {
+		case "context.Background", "context.TODO", "context.WithoutCancel":
+			return ""
+		case "context.WithTimeout", "context.WithDeadline", "context.WithCancel", "context.WithValue", "context.WithTimeoutCause", "context.WithDeadlineCause", "context.WithCancelCause":
+			return c.shutdownParentLive(x.Call.Args[0], depth+1)
+		case "os/signal.NotifyContext":
+			return "the signal context (signal.NotifyContext)"
+		default:
+			return "a context obtained from " + n
+		}
+	case *ssa.Parameter:
+		fn := x.Parent()
+		idx := -1
+		for i, pm := range fn.Params {
+			if pm == x {
+				idx = i
+			}
+		}
+		for _, caller := range p.Funcs {
+			for _, ci := range callsIn(caller) {
+				if StaticFn(ci) == fn && idx >= 0 && idx < len(ci.Common().Args) {
+					if w := c.shutdownParentLive(ci.Common().Args[idx], depth+1); w != "" {
+						return w
+					}
+				}
+			}
+		}
+		return ""
+	case *ssa.UnOp:
+		if fa, ok := x.X.(*ssa.FieldAddr); ok {
+			if fr, ok := fieldRefOf(fa); ok {
+				return "the context stored in " + fr.Key()
+			}
+		}
+	}
+	return "a context that is not context.Background() (" + p.Desc(v, nil) + ")"
 }
